@@ -1581,13 +1581,20 @@ theorem log_file_limits_panicked_before :
     logFileLimitsWith false none (some (2 ^ 64 - 1)) = .error .overflow := by
   refine ⟨rfl, rfl⟩
 
-/-- `antctl local kill` on a registry file whose faucet entry has `"pid":null`, and the `debug!` of `antctl upgrade`
-on a registry without services: a value, not a panic.  The one site the scan still reports in `upgrade` is
-`node_registry.nodes[index]` with `index` from `get_services_for_ops`, i.e. a `position` in that same list. -/
+/-- `antctl local kill` on a registry file whose faucet entry has `"pid":null`, and `antctl upgrade` on any registry:
+a value, not a panic.  `upgrade` has two index expressions: `nodes[0]` in the `debug!` (now `first()`), and
+`node_registry.nodes[index]` in the loop over `get_services_for_ops`' result — modelled: the translator checks that
+every index pushed there is a `position` in that same list and that the list is not resized before the loop
+(`upgradeIndexFromPosition`), and for every registry, every selection (service names, peer ids, or all) each such
+index is below the length. -/
 theorem no_panic_registry_consumers :
-    killNetworkSites = [] ∧ faucetPidChecked = true ∧ upgradeSites = ["index"] ∧ upgradeFirstNodeChecked = true ∧
-    (∀ f : Option (Option Nat), (killFaucet f).isPanic = false) ∧ ∀ n : Nat, (upgradeFirstNode n).isPanic = false := by
-  refine ⟨by decide, by decide, by decide, by decide, fun f => ?_, fun n => ?_⟩
+    killNetworkSites = [] ∧ faucetPidChecked = true ∧ upgradeSites = [] ∧ servicesForOpsSites = [] ∧
+    upgradeFirstNodeChecked = true ∧ upgradeIndexFromPosition = true ∧
+    (∀ f : Option (Option Nat), (killFaucet f).isPanic = false) ∧ (∀ n : Nat, (upgradeFirstNode n).isPanic = false) ∧
+    ∀ (α : Type) (nodes : List α) (skip : Bool) (preds : List (α → Bool)),
+      (upgradeSelect nodes skip preds).isPanic = false := by
+  refine ⟨by decide, by decide, by decide, by decide, by decide, by decide, fun f => ?_, fun n => ?_,
+    fun α nodes skip preds => ?_⟩
   · match f with
     | none => rfl
     | some (some _) => rfl
@@ -1595,6 +1602,15 @@ theorem no_panic_registry_consumers :
   · unfold upgradeFirstNode upgradeFirstNodeWith
     have : upgradeFirstNodeChecked = true := by decide
     simp [this, Res.isPanic]
+  · unfold upgradeSelect
+    cases h : servicesForOps nodes skip preds with
+    | none => rfl
+    | some idxs => simp [servicesForOps_lt nodes skip preds idxs h, Res.isPanic]
+
+example : upgradeSelect [10, 20, 30] false [(· == 30), (· == 10)] = .ok () := by decide
+example : servicesForOps [10, 20, 30] false [(· == 30), (· == 10)] = some [2, 0] := by decide
+example : upgradeSelect [10, 20] false [(· == 30)] = .err () := by decide
+example : upgradeIndexSites 2 [2] = .error .sliceIndex := rfl
 
 theorem registry_consumers_panicked_before :
     killFaucetWith false (some none) = .panic .unwrap ∧ upgradeFirstNodeWith false 0 = .panic .sliceIndex := by
